@@ -32,8 +32,13 @@ ASSUMPTIONS = [
 RULE = ("list changes: random add/remove/set changes (incl. empty, duplicated values, constructor-refused shapes) over a 5-value alphabet "
         "(strings or BugIds) combined with | and applied to random initial lists, plus every ordered pair of the 47 valid changes over a "
         "3-value alphabet; non-trivial = both operands truthy and (they share a value or one of them is a set). "
-        "bug updates: every field independently set/unset (status/resolution/dupe_of mostly coherent), built through BugUpdate(...) "
-        "and the shorthands resolve/sanity_check/obsoleted_by; non-trivial = at least two fields set")
+        "bug updates: every status x resolution x dupe_of combination (bare and next to other fields), the updates the field table is "
+        "probed with (each field set / unset next to four status companions), then every field independently set/unset (a resolution "
+        "next to any explicit status, RESOLVED or not; some incoherent triples), built through BugUpdate(...) and the shorthands "
+        "resolve/sanity_check/obsoleted_by; non-trivial = at least two fields set. A failing update is shrunk (fields dropped, one id) "
+        "before it is reported; where model and code disagree the property is evaluated on the real code for the neighbouring inputs "
+        "(list changes: every initial list over the mentioned values, both orders, one value dropped; updates: one field dropped, "
+        "each field alone) and only if it holds on all of them is the disagreement filed as a mismatch")
 
 ALPHA_S = ["a", "b", "c", "d", "e@gentoo.org"]
 ALPHA_I = [1, 2, 3, 44, 555]
@@ -43,7 +48,7 @@ def gen_tables(repo):
     from pkgcore.bugzilla import changes, enums, wire
     fields = [f.name for f in dataclasses.fields(changes.BugUpdate)]
     raw_keys = list(wire.RawBugUpdate.__annotations__)
-    fw = _field_wire()
+    fw, _problems = _field_wire()   # a field whose key cannot be probed keeps its reference name; run() reports the failing update
     pairs = [(name, fw[name]) for name in fields]
 
     def q(s):
@@ -58,45 +63,71 @@ def gen_tables(repo):
     return {"Pkgcore/Generated/C39Tables.lean": text}
 
 
-def _probe_values():
-    """for each dataclass field of BugUpdate: kwargs that set (only) this field to a non-default value and pass __post_init__"""
+# the property's reference for "which payload key carries which field": the names Bugzilla's REST `PUT /rest/bug/<id>` understands
+# (wire.RawBugUpdate declares the same ones) — the dataclass field name, except for the two Gentoo custom fields
+REFERENCE_WIRE = {name: name for name in (
+    "status", "resolution", "dupe_of", "summary", "assigned_to", "whiteboard", "deadline", "cc", "keywords", "blocks", "depends_on",
+    "see_also", "groups", "flags", "comment")}
+REFERENCE_WIRE.update(package_list="cf_stabilisation_atoms", runtime_testing_required="cf_runtime_testing_required")
+
+
+def _probe_pairs():
+    """for each dataclass field of BugUpdate: pairs (kwargs with the field set, the same kwargs with only that field unset/changed
+    to a value that keeps the update valid); all pass __post_init__.  Several companions per field, so that a key that is only
+    written next to particular other fields is noticed."""
     from pkgcore.bugzilla import changes, enums
     from pkgcore.bugzilla.pkglist import PackageList
     LC = changes.ListChange
+    S, R = enums.Status, enums.Resolution
+    with_status = [{}, {"status": S.CONFIRMED}, {"status": S.RESOLVED, "resolution": R.FIXED}, {"status": S.VERIFIED, "resolution": R.WONTFIX}]
     p = {
-        "status": {"status": enums.Status.CONFIRMED},
-        "resolution": {"status": enums.Status.CONFIRMED, "resolution": enums.Resolution.FIXED},
-        "dupe_of": {"status": enums.Status.RESOLVED, "resolution": enums.Resolution.DUPLICATE, "dupe_of": 7},
-        "summary": {"summary": "s"}, "assigned_to": {"assigned_to": "m@gentoo.org"}, "whiteboard": {"whiteboard": "w"},
-        "deadline": {"deadline": datetime.date(2024, 1, 2)},
-        "flags": {"flags": (changes.FlagChange("sanity-check", enums.FlagStatus.GRANTED),)},
-        "comment": {"comment": changes.NewComment("c")},
-        "package_list": {"package_list": PackageList("=dev-libs/a-1 amd64")},
-        "runtime_testing_required": {"runtime_testing_required": enums.RuntimeTesting.YES},
+        "status": [({"status": st}, {}) for st in S if st is not S.RESOLVED],
+        "resolution": [({"status": st, "resolution": r}, {"status": st}) for st in S if st is not S.RESOLVED for r in (R.FIXED, R.WONTFIX)],
+        "dupe_of": [({"status": st, "resolution": R.DUPLICATE, "dupe_of": 7}, {"status": st, "resolution": R.FIXED}) for st in S],
+    }
+    simple = {
+        "summary": "s", "assigned_to": "m@gentoo.org", "whiteboard": "w", "deadline": datetime.date(2024, 1, 2),
+        "flags": (changes.FlagChange("sanity-check", enums.FlagStatus.GRANTED),), "comment": changes.NewComment("c"),
+        "package_list": PackageList("=dev-libs/a-1 amd64"), "runtime_testing_required": enums.RuntimeTesting.YES,
     }
     for name in ("cc", "keywords", "blocks", "depends_on", "see_also", "groups"):
-        p[name] = {name: LC.adding("x")}
+        simple[name] = LC.adding("x")
+    for name, value in simple.items():
+        p[name] = [({**base, name: value}, dict(base)) for base in with_status]
     for f in dataclasses.fields(changes.BugUpdate):
-        if f.name not in p:
+        if f.name not in p or f.name not in REFERENCE_WIRE:
             raise RuntimeError(f"BugUpdate has a field unknown to the C39 model: {f.name}")
     return p
 
 
+def _probe_values():
+    """for each dataclass field of BugUpdate: kwargs that set this field (with the companions __post_init__ demands)"""
+    return {name: pairs[0][0] for name, pairs in _probe_pairs().items()}
+
+
 def _field_wire():
-    """dataclass field name -> wire key, by probing the real to_wire with that field set / not set"""
-    from pkgcore.bugzilla import changes, enums
-    out = {}
-    for name, kw in _probe_values().items():
-        w = changes.BugUpdate(**kw).to_wire([1])
-        base_kw = {k: v for k, v in kw.items() if k != name}
-        if name == "dupe_of":  # only constructible together with resolution=DUPLICATE
-            base_kw["resolution"] = enums.Resolution.FIXED
-        base = changes.BugUpdate(**base_kw).to_wire([1])
-        new = [k for k in w if k not in base]
-        if len(new) != 1:
-            raise RuntimeError(f"setting BugUpdate.{name} alone adds wire keys {new}")
-        out[name] = new[0]
-    return out
+    """(dataclass field name -> wire key, problems).  The key is found by probing the real to_wire with the field set / not set,
+    next to several companions.  When the probes do not single out one key, the field keeps its reference name and the probe is
+    returned in `problems` = [(field, kwargs, payload, keys that setting the field added)] — run() evaluates the property on
+    exactly these updates, so the failure is reported with its input instead of as a broken table."""
+    from pkgcore.bugzilla import changes
+    out, problems = {}, []
+    for name, pairs in _probe_pairs().items():
+        found = set()
+        for kw, base_kw in pairs:
+            w = changes.BugUpdate(**kw).to_wire([1])
+            base = changes.BugUpdate(**base_kw).to_wire([1])
+            new = tuple(k for k in w if k not in base)
+            found.add(new)
+            if len(new) != 1:
+                problems.append((name, kw, w, list(new)))
+        if len(found) == 1 and len(next(iter(found))) == 1:
+            out[name] = next(iter(found))[0]
+        else:
+            if not any(pr[0] == name for pr in problems):   # every probe adds one key, but not the same one
+                problems.append((name, pairs[0][0], changes.BugUpdate(**pairs[0][0]).to_wire([1]), sorted(k for t in found for k in t)))
+            out[name] = REFERENCE_WIRE[name]
+    return out, problems
 
 
 # ------------------------------------------------------------------ list changes
@@ -157,6 +188,70 @@ def lc_json(c):
             "replace": None if c.replace is None else [str(x) for x in c.replace]}
 
 
+def lc_property(x, y, cur):
+    """the property itself on two real ListChange objects and one initial list (a set of rendered values): None when it holds
+    (the combination is refused, or applies like x then y), else the description of the failure"""
+    from pkgcore.bugzilla.errors import BugzillaUsageError
+    try:
+        c = x | y
+    except BugzillaUsageError:
+        return None
+    except Exception as e:
+        return f"a | b raised {type(e).__name__}: {e}"
+    seq = apply_wire(y.to_wire(), apply_wire(x.to_wire(), cur))
+    comb = apply_wire(c.to_wire(), cur)
+    if comb != seq:
+        return f"(a | b) = {c!r} applied to {sorted(cur)} gives {sorted(comb)}; a then b gives {sorted(seq)}"
+    if bool(c) != bool(c.to_wire()):
+        return f"truthiness of {c!r} disagrees with its wire form {c.to_wire()!r}"
+    return None
+
+
+def lc_neighbours(a, b, l, alpha):
+    """inputs near (a, b, l) on which a disagreement between model and code would become a failure of the property if it is one:
+    every initial list over the values mentioned (+ one value mentioned nowhere), both argument orders, one value dropped"""
+    vals = []
+    for v in a["add"] + a["remove"] + (a["replace"] or []) + b["add"] + b["remove"] + (b["replace"] or []) + list(l):
+        if v not in vals:
+            vals.append(v)
+    fresh = [v for v in alpha if v not in vals][:1]
+    pool = (vals + fresh)[:6]
+    lists = [list(c) for r in range(len(pool) + 1) for c in itertools.combinations(pool, r)]
+
+    def drops(spec):
+        for key in ("add", "remove", "replace"):
+            for i in range(len(spec[key] or [])):
+                d = dict(spec)
+                d[key] = spec[key][:i] + spec[key][i + 1:]
+                yield d
+    pairs = [(a, b), (b, a)] + [(d, b) for d in drops(a)] + [(a, d) for d in drops(b)]
+    for pa, pb in pairs:
+        for pl in lists:
+            yield pa, pb, pl
+
+
+def lc_explore(ctx, LC, typ, a, b, l, why):
+    """model and code disagree on (a, b): look for an input on which the property itself fails on the real code; report the
+    smallest one found as a violation and return True, else False (the disagreement then stays a mismatch)"""
+    from pkgcore.bugzilla.errors import BugzillaUsageError
+    alpha = ALPHA_I if typ == "int" else ALPHA_S
+    best = None
+    for pa, pb, pl in lc_neighbours(a, b, l, alpha):
+        try:
+            x, y = build_change(LC, pa), build_change(LC, pb)
+        except BugzillaUsageError:
+            continue
+        detail = lc_property(x, y, set(str(v) for v in pl))
+        if detail is not None:
+            size = sum(len(sp[k] or []) for sp in (pa, pb) for k in ("add", "remove", "replace")) * 8 + len(pl)
+            if best is None or size < best[0]:
+                best = (size, {"type": typ, "a": pa, "b": pb, "l": pl}, detail)
+    if best is None:
+        return False
+    ctx.violation(best[1], best[2] + f"  [found next to a={a} b={b}, where {why}]")
+    return True
+
+
 LC_CORPUS = [
     # the defect repaired in /repo: an earlier set was dropped by a later add/remove
     ({"add": [], "remove": [], "replace": ["x"]}, {"add": ["a"], "remove": [], "replace": None}, ["q"]),
@@ -188,7 +283,7 @@ def run_list_changes(ctx):
     rng = ctx.rng
     cases = [("str", a, b, l) for a, b, l in LC_CORPUS]
     if ctx.replay_cases:
-        cases = [("str", c["a"], c["b"], c["l"]) for c in ctx.replay_cases if "a" in c and "l" in c] + cases
+        cases = [(c.get("type", "str"), c["a"], c["b"], c["l"]) for c in ctx.replay_cases if "a" in c and "l" in c] + cases
     # every ordered pair of valid changes over a 3-value alphabet (47 changes), a few initial lists each
     A = ["a", "b", "c"]
     tuples = [list(c) for r in range(3) for c in itertools.permutations(A, r)]
@@ -209,6 +304,7 @@ def run_list_changes(ctx):
         cases.append((typ, a, b, l))
 
     reqs = [{"cmd": "c39.or", "a": spec_json(a), "b": spec_json(b), "l": [str(x) for x in l]} for _, a, b, l in cases]
+    explored = 0
     for (typ, a, b, l), rep in zip(cases, ctx.model(reqs)):
         case = {"type": typ, "a": a, "b": b, "l": l}
         if not isinstance(rep, dict):
@@ -221,13 +317,12 @@ def run_list_changes(ctx):
             except BugzillaUsageError:
                 built.append(None)
         impl_ok = [x is not None for x in built]
-        if impl_ok != [rep["a_ok"], rep["b_ok"]]:
-            ctx.case(case, False)
-            ctx.mismatch(case, f"constructor refusal differs: impl accepts {impl_ok}, model {[rep['a_ok'], rep['b_ok']]}")
-            continue
         if None in built:
             ctx.case(case, False)
-            ctx.count("lc_operand_refused_by_constructor")
+            if impl_ok != [rep["a_ok"], rep["b_ok"]]:
+                ctx.mismatch(case, f"constructor refusal differs: impl accepts {impl_ok}, model {[rep['a_ok'], rep['b_ok']]}")
+            else:
+                ctx.count("lc_operand_refused_by_constructor")
             continue
         x, y = built
         try:
@@ -248,27 +343,32 @@ def run_list_changes(ctx):
         ctx.count("lc_type_" + typ)
         # ---- edge C: the property on the real code, against the python transcription of the reference
         cur = set(str(v) for v in l)
-        seq = apply_wire(y.to_wire(), apply_wire(x.to_wire(), cur))
-        if c is not None:
-            comb = apply_wire(c.to_wire(), cur)
-            if comb != seq:
-                ctx.violation(case, f"(a | b) = {c!r} applied to {sorted(cur)} gives {sorted(comb)}; a then b gives {sorted(seq)}")
-                continue
-            if bool(c) != bool(c.to_wire()):
-                ctx.violation(case, f"truthiness of {c!r} disagrees with its wire form {c.to_wire()!r}")
-        # ---- edge A: model vs implementation (and lean spec vs python reference)
-        if (c is None) != (rep["or"] is None):
-            ctx.mismatch(case, f"impl {'refuses' if c is None else 'combines'}, model {'refuses' if rep['or'] is None else 'combines'}")
+        detail = lc_property(x, y, cur)
+        if detail is not None:
+            ctx.violation(case, detail)
             continue
-        if sorted(seq) != rep["sequential"]:
-            ctx.mismatch(case, f"reference semantics differ: python {sorted(seq)}, lean spec {rep['sequential']} (wires {x.to_wire()} {y.to_wire()})")
-        if c is not None:
+        seq = apply_wire(y.to_wire(), apply_wire(x.to_wire(), cur))
+        comb = None if c is None else apply_wire(c.to_wire(), cur)
+        # ---- edge A: model vs implementation (and lean spec vs python reference); on a disagreement the property is evaluated
+        # on the real code around this input before it is filed as a mere mismatch
+        why = None
+        if impl_ok != [rep["a_ok"], rep["b_ok"]]:
+            why = f"constructor refusal differs: impl accepts {impl_ok}, model {[rep['a_ok'], rep['b_ok']]}"
+        elif (c is None) != (rep["or"] is None):
+            why = f"impl {'refuses' if c is None else 'combines'}, model {'refuses' if rep['or'] is None else 'combines'}"
+        elif sorted(seq) != rep["sequential"]:
+            why = f"reference semantics differ: python {sorted(seq)}, lean spec {rep['sequential']} (wires {x.to_wire()} {y.to_wire()})"
+        elif c is not None:
             if lc_json(c) != rep["or"]:
-                ctx.mismatch(case, f"impl a|b = {lc_json(c)}, model {rep['or']}")
+                why = f"impl a|b = {lc_json(c)}, model {rep['or']}"
             elif c.to_wire() != {k: v for k, v in rep["wire"].items() if v is not None}:
-                ctx.mismatch(case, f"impl wire {c.to_wire()}, model wire {rep['wire']}")
+                why = f"impl wire {c.to_wire()}, model wire {rep['wire']}"
             elif sorted(comb) != rep["combined"]:
-                ctx.mismatch(case, f"reference semantics differ on the combination: python {sorted(comb)}, lean spec {rep['combined']}")
+                why = f"reference semantics differ on the combination: python {sorted(comb)}, lean spec {rep['combined']}"
+        if why is not None:
+            explored += 1
+            if explored > 40 or not lc_explore(ctx, LC, typ, a, b, l, why):
+                ctx.mismatch(case, why)
 
 
 # ------------------------------------------------------------------ bug updates
@@ -292,7 +392,12 @@ def gen_update(rng):
         kw["status"] = enums.Status.RESOLVED
         kw["resolution"] = enums.Resolution.DUPLICATE
         kw["dupe_of"] = rng.choice([0, 5, 123456])
-    elif k < 0.65:  # incoherent on purpose
+    elif k < 0.67:  # a resolution next to any explicit status (valid: only RESOLVED *needs* one), dupe_of coherent
+        kw["status"] = rng.choice(list(enums.Status))
+        kw["resolution"] = rng.choice(list(enums.Resolution))
+        if kw["resolution"] is enums.Resolution.DUPLICATE:
+            kw["dupe_of"] = rng.choice([0, 5, 123456])
+    elif k < 0.75:  # incoherent on purpose
         if rng.random() < 0.6:
             kw["status"] = rng.choice(list(enums.Status))
         if rng.random() < 0.6:
@@ -346,6 +451,102 @@ def update_json(kw):
     return j
 
 
+def kw_from_json(j):
+    """inverse of update_json (for replays): python kwargs from the recorded view of an update"""
+    from pkgcore.bugzilla import changes, enums
+    from pkgcore.bugzilla.pkglist import PackageList
+    kw = {}
+    for k, v in j.items():
+        if k == "status":
+            kw[k] = enums.Status(v)
+        elif k == "resolution":
+            kw[k] = enums.Resolution(v)
+        elif k == "runtime_testing_required":
+            kw[k] = enums.RuntimeTesting(v)
+        elif k == "package_list":
+            kw[k] = PackageList(v)
+        elif k == "deadline":
+            kw[k] = datetime.date.fromisoformat(v)
+        elif k in ("cc", "keywords", "blocks", "depends_on", "see_also", "groups"):
+            conv = (lambda x: int(x)) if k in ("blocks", "depends_on") and all(str(x).isdigit() for x in v["add"] + v["remove"] + (v["replace"] or [])) else (lambda x: x)
+            kw[k] = changes.ListChange(add=tuple(map(conv, v["add"])), remove=tuple(map(conv, v["remove"])),
+                                       replace=None if v["replace"] is None else tuple(map(conv, v["replace"])))
+        elif k == "flags":
+            kw[k] = tuple(changes.FlagChange(f["name"], enums.FlagStatus(f["status"]), requestee=f["requestee"]) for f in v)
+        elif k == "comment":
+            kw[k] = changes.NewComment(v["body"], is_private=v["is_private"])
+        else:
+            kw[k] = v
+    return kw
+
+
+def update_property(u, ids, field_wire, default):
+    """the property itself on one real BugUpdate: the payload for a non-empty id list holds `ids` and exactly the fields that
+    differ from 'leave alone', under their wire names, with their values.  None when it holds, else the description"""
+    from pkgcore.bugzilla.errors import BugzillaUsageError
+    try:
+        w = u.to_wire(ids)
+    except BugzillaUsageError:
+        return "to_wire refused a non-empty id list" if ids else None
+    except Exception as e:
+        return f"to_wire raised {type(e).__name__}: {e}"
+    if not ids:
+        return None
+    set_fields = [f.name for f in dataclasses.fields(u) if getattr(u, f.name) != getattr(default, f.name)]
+    want_keys = {"ids"} | {field_wire[f] for f in set_fields}
+    if set(w) != want_keys:
+        return f"wire keys {sorted(w)} but the fields set are {sorted(set_fields)} (expected keys {sorted(want_keys)})"
+    if w["ids"] != [int(i) for i in ids]:
+        return f"wire ids {w['ids']} for ids {ids}"
+    wrong = [f for f in set_fields if w[field_wire[f]] != expected_value(f, getattr(u, f))]
+    if wrong:
+        return f"wire value of {wrong[0]} is {w[field_wire[wrong[0]]]!r}, expected {expected_value(wrong[0], getattr(u, wrong[0]))!r}"
+    return None
+
+
+def shrink_update(kw, ids, field_wire, default):
+    """smallest update (fields dropped one at a time, then a single id) built through the constructor that still breaks the
+    property; None when the constructor-built update does not break it"""
+    from pkgcore.bugzilla import changes
+    from pkgcore.bugzilla.errors import BugzillaUsageError
+
+    def bad(k, i):
+        try:
+            u = changes.BugUpdate(**k)
+        except BugzillaUsageError:
+            return None
+        return update_property(u, i, field_wire, default)
+    detail = bad(kw, ids)
+    if detail is None:
+        return None
+    kw = dict(kw)
+    progress = True
+    while progress:
+        progress = False
+        for name in list(kw):
+            sub = {k: v for k, v in kw.items() if k != name}
+            d = bad(sub, ids)
+            if d is not None:
+                kw, detail, progress = sub, d, True
+                break
+    if len(ids) > 1 or ids != [1]:
+        d = bad(kw, [1])
+        if d is not None:
+            ids, detail = [1], d
+    return kw, ids, detail
+
+
+def update_neighbours(kw):
+    """updates near kw: one field dropped; every field alone (status/resolution/dupe_of kept together as far as needed)"""
+    core = {k: v for k, v in kw.items() if k in ("status", "resolution", "dupe_of")}
+    seen = []
+    for name in kw:
+        for cand in ({k: v for k, v in kw.items() if k != name}, {**core, name: kw[name]}, {name: kw[name]}):
+            if cand not in seen:
+                seen.append(cand)
+                yield cand
+
+
 def canon_wire(w):
     """real wire dict -> ordered [key, value] list comparable with the driver's output"""
     out = []
@@ -382,7 +583,7 @@ def expected_value(name, v):
     return v
 
 
-def run_updates(ctx, field_wire):
+def run_updates(ctx, field_wire, problems):
     from pkgcore.bugzilla import changes, enums
     from pkgcore.bugzilla.errors import BugzillaUsageError
     rng = ctx.rng
@@ -391,8 +592,26 @@ def run_updates(ctx, field_wire):
     # corpus: empty update, every single field, set-to-empty list change, empty flags, empty ids
     cases.append(({}, [1], "ctor"))
     cases.append(({"summary": "x"}, [], "ctor"))
-    for name, kw in _probe_values().items():
-        cases.append((kw, [1, 2, 3], "ctor"))
+    if ctx.replay_cases:
+        for c in ctx.replay_cases:
+            if "update" in c:
+                try:
+                    cases.append((kw_from_json(c["update"]), list(c.get("ids", [1])), "ctor"))
+                except Exception as e:
+                    ctx.note(f"replay case not reconstructible: {e}")
+    # the updates the field table was probed with (so a field that is not written next to some companion fails here, with its input)
+    for name, pairs in _probe_pairs().items():
+        for with_kw, without_kw in pairs:
+            for kw in (with_kw, without_kw):
+                if (kw, [1, 2, 3], "ctor") not in cases:
+                    cases.append((kw, [1, 2, 3], "ctor"))
+    # every status x resolution x dupe_of combination (valid or refused), bare and next to another field
+    for st in (None, *enums.Status):
+        for res in (None, *enums.Resolution):
+            for dupe in (None, 7):
+                kw = {k: v for k, v in (("status", st), ("resolution", res), ("dupe_of", dupe)) if v is not None}
+                cases.append((kw, [1], "ctor"))
+                cases.append(({**kw, "cc": changes.ListChange.adding("x@gentoo.org"), "whiteboard": ""}, [3, 4], "ctor"))
     cases.append(({"groups": changes.ListChange.setting()}, [4], "ctor"))
     cases.append(({"cc": changes.ListChange(), "flags": ()}, [4], "ctor"))
     cases.append(({"summary": "", "whiteboard": "", "assigned_to": ""}, ["12", 7], "ctor"))
@@ -447,6 +666,7 @@ def run_updates(ctx, field_wire):
         prepared.append((kw, ids, how, u))
 
     reqs = [{"cmd": "c39.update", "u": update_json(kw), "ids": [int(i) for i in ids]} for kw, ids, how, u in prepared]
+    explored = 0
     for (kw, ids, how, u), rep in zip(prepared, ctx.model(reqs)):
         case = {"update": update_json(kw), "ids": ids, "via": how}
         if not isinstance(rep, dict):
@@ -454,19 +674,15 @@ def run_updates(ctx, field_wire):
             continue
         if (u is not None) != rep["valid"]:
             ctx.case(case, False)
-            ctx.mismatch(case, f"BugUpdate constructor {'accepts' if u is not None else 'refuses'}, model says valid={rep['valid']}")
+            detail = None if u is None else update_property(u, ids, field_wire, default)   # accepted by the code: the property speaks about it
+            if detail is not None:
+                ctx.violation(case, detail + "  [the model's __post_init__ refuses this update, the constructor accepts it]")
+            else:
+                ctx.mismatch(case, f"BugUpdate constructor {'accepts' if u is not None else 'refuses'}, model says valid={rep['valid']}")
             continue
         if u is None:
             ctx.case(case, False)
             ctx.count("upd_refused_by_constructor")
-            continue
-        try:
-            w = u.to_wire(ids)
-        except BugzillaUsageError:
-            w = None
-        except Exception as e:
-            ctx.case(case, True)
-            ctx.violation(case, f"to_wire raised {type(e).__name__}: {e}")
             continue
         set_fields = [f.name for f in dataclasses.fields(u) if getattr(u, f.name) != getattr(default, f.name)]
         ctx.case(case, len(set_fields) >= 2, key=repr(case))
@@ -474,43 +690,64 @@ def run_updates(ctx, field_wire):
         ctx.count("upd_via_" + how)
         for f in set_fields:
             ctx.count("upd_set_" + f)
+        if "resolution" in set_fields:
+            ctx.count("upd_resolution_with_status_" + str(u.status))
+        # ---- edge C: exactly the set fields, under their wire names, with the right values
+        detail = update_property(u, ids, field_wire, default)
+        if detail is not None:
+            small = shrink_update(kw, ids, field_wire, default)
+            if small is not None and (small[0] != kw or small[1] != ids):
+                ctx.violation({"update": update_json(small[0]), "ids": small[1], "via": "ctor"},
+                              small[2] + f"  [shrunk from {case}: {detail}]")
+            else:
+                ctx.violation(case, detail)
+            continue
+        try:
+            w = u.to_wire(ids)
+        except BugzillaUsageError:
+            w = None
         if w is None:
             ctx.count("upd_no_ids")
-            if ids:
-                ctx.violation(case, "to_wire refused a non-empty id list")
-            elif rep["wire"] is not None:
+            if rep["wire"] is not None:
                 ctx.mismatch(case, "impl refuses the empty id list, model renders")
-            continue
-        # ---- edge C: exactly the set fields, under their wire names, with the right values
-        want_keys = {"ids"} | {field_wire[f] for f in set_fields}
-        if set(w) != want_keys:
-            ctx.violation(case, f"wire keys {sorted(w)} but the fields set are {sorted(set_fields)} (expected keys {sorted(want_keys)})")
-            continue
-        if w["ids"] != [int(i) for i in ids]:
-            ctx.violation(case, f"wire ids {w['ids']} for ids {ids}")
-            continue
-        wrong = [f for f in set_fields if w[field_wire[f]] != expected_value(f, getattr(u, f))]
-        if wrong:
-            ctx.violation(case, f"wire value of {wrong[0]} is {w[field_wire[wrong[0]]]!r}, expected {expected_value(wrong[0], getattr(u, wrong[0]))!r}")
             continue
         if bool(u) != bool(set_fields):
             # outside the property (it speaks about the payload only): bool(BugUpdate(whiteboard="")) is False although
             # the payload clears the whiteboard.  Recorded, not alarmed.
             ctx.note("observation outside C39: BugUpdate.__bool__ is False for updates whose only set fields are empty strings")
-        # ---- edge A
+        # ---- edge A; on a disagreement the property is evaluated on the real code for the neighbouring updates before it is
+        # filed as a mere mismatch
+        why = None
         if rep["wire"] is None:
-            ctx.mismatch(case, "model refuses, impl renders")
+            why = "model refuses, impl renders"
         elif canon_wire(w) != rep["wire"]:
-            ctx.mismatch(case, f"impl wire {canon_wire(w)} != model wire {rep['wire']}")
+            why = f"impl wire {canon_wire(w)} != model wire {rep['wire']}"
         elif rep["wire"] != rep["spec"]:
-            ctx.mismatch(case, f"model wire {rep['wire']} != spec wire {rep['spec']} (theorem wire_exactly_set_fields broken?)")
+            why = f"model wire {rep['wire']} != spec wire {rep['spec']} (theorem wire_exactly_set_fields broken?)"
+        if why is not None:
+            found = None
+            explored += 1
+            if explored <= 40:
+                for cand in update_neighbours(kw):
+                    for cand_ids in ([1], [2, 1, 1]):
+                        found = found or shrink_update(cand, cand_ids, field_wire, default)
+            if found is not None:
+                ctx.violation({"update": update_json(found[0]), "ids": found[1], "via": "ctor"}, found[2] + f"  [found next to {case}, where {why}]")
+            else:
+                ctx.mismatch(case, why)
+    # the probing of the field table itself: each failed probe is an update evaluated above (it is in the corpus); should none of
+    # them have been reported as a failure of the property, keep the disagreement visible
+    for name, kw, w, new in problems:
+        if not ctx.violations:
+            ctx.mismatch({"update": update_json(kw), "ids": [1], "via": "ctor"},
+                         f"setting BugUpdate.{name} adds the payload keys {new} (payload {w}); expected exactly one key, the same next to every companion")
 
 
 def run(ctx):
     from pkgcore.bugzilla import changes
     run_list_changes(ctx)
-    field_wire = _field_wire()
-    run_updates(ctx, field_wire)
+    field_wire, problems = _field_wire()
+    run_updates(ctx, field_wire, problems)
 
 
 LEVEL_TEXT = ("Kernel-checked Lean 4 theorems about a model of ListChange (constructor refusals, __or__, to_wire) and BugUpdate.to_wire: for all "
